@@ -2,6 +2,8 @@ package main
 
 import (
 	"fmt"
+	"go/token"
+	"go/types"
 	"strings"
 
 	"golang.org/x/tools/go/ssa"
@@ -856,4 +858,184 @@ func ruleC07ExistsFreshRows(c *Ctx) {
 		why = append(why, "no store of a merged row into the nested source found")
 	}
 	c.Check(len(why) == 0, "c07.exists-fresh-row", c.P.funcKey(f), c.P.Pos(f.Pos()), fmt.Sprintf("%d element stores, each of a map made inside the loop", n), strings.Join(uniq(why), "; "))
+}
+
+func init() { register("C17", ruleC17EscapeSkip) }
+
+// addConst unfolds t = (((base + a) + b) ...) into base and the sum of the integer constants.
+func addConst(t *Term) (*Term, int64) {
+	var k int64
+	for t != nil && t.Op == "bin" && t.Name == "+" && len(t.Args) == 2 {
+		c, ok := t.Args[1].V.(*ssa.Const)
+		if !ok || t.Args[1].Op != "const" {
+			break
+		}
+		v, isInt := constIntOf(c)
+		if !isInt {
+			break
+		}
+		k += v
+		t = t.Args[0]
+	}
+	return t, k
+}
+
+// ruleC17EscapeSkip: inside a '...' literal a backslash takes the next byte with it, whatever it is.
+func ruleC17EscapeSkip(c *Ctx) {
+	c.Doc("c17.escape-skip", "quote rewriter (DoubleQuotesToBackTick), single-quote region: on every path of an iteration that read a backslash, the position advances by exactly two (the backslash and the byte after it, unconditionally — as the consuming tokenizer's string scanner does) or the function returns an error; so `'x\\\\'` ends at its closing quote and the identifiers after it are still rewritten")
+	f := c.P.Func(modPath, "DoubleQuotesToBackTick")
+	if f == nil {
+		c.Unknown("c17.escape-skip", "DoubleQuotesToBackTick", "-", "anchor lost")
+		return
+	}
+	hs := loopHeaders(f)
+	// the single-quote region loop: the header whose loop condition compares a byte with '\''
+	var region *ssa.BasicBlock
+	for _, h := range hs {
+		isInner := false
+		for _, o := range hs {
+			if o != h && inNaturalLoop(o, h) {
+				isInner = true
+			}
+		}
+		if !isInner {
+			continue
+		}
+		for _, b := range f.Blocks {
+			if b != h && !inNaturalLoop(h, b) {
+				continue
+			}
+			for _, in := range b.Instrs {
+				if bo, ok := in.(*ssa.BinOp); ok && (bo.Op == token.NEQ || bo.Op == token.EQL) {
+					if k, isK := constIntOf(bo.Y); isK && k == 39 {
+						if _, isPhi := bo.X.(*ssa.Phi); isPhi {
+							region = h
+						}
+					}
+				}
+			}
+		}
+	}
+	if region == nil {
+		c.Unknown("c17.escape-skip", "DoubleQuotesToBackTick/'-region", c.P.Pos(f.Pos()), "anchor lost: no inner loop ended by a comparison with the single quote")
+		return
+	}
+	var pos *ssa.Phi
+	for _, in := range region.Instrs {
+		if ph, ok := in.(*ssa.Phi); ok && ph.Type().String() == "int" {
+			pos = ph
+		}
+	}
+	if pos == nil {
+		c.Unknown("c17.escape-skip", "DoubleQuotesToBackTick/'-region", c.P.Pos(region.Instrs[0].Pos()), "anchor lost: no loop-carried position")
+		return
+	}
+	n := 0
+	var why []string
+	for _, b := range f.Blocks {
+		if !inNaturalLoop(region, b) || len(b.Instrs) == 0 {
+			continue
+		}
+		iff, ok := b.Instrs[len(b.Instrs)-1].(*ssa.If)
+		if !ok {
+			continue
+		}
+		bo, ok := iff.Cond.(*ssa.BinOp)
+		if !ok {
+			continue
+		}
+		k, isK := constIntOf(bo.Y)
+		if !isK || k != 92 || (bo.Op != token.EQL && bo.Op != token.NEQ) {
+			continue
+		}
+		n++
+		succ := b.Succs[0]
+		if bo.Op == token.NEQ {
+			succ = b.Succs[1]
+		}
+		paths, err := WalkFrom(f, succ, b, WalkCfg{StopAt: func(x *ssa.BasicBlock) bool { return x == region }, MaxVisits: 1, MaxPaths: 2000})
+		if err != nil {
+			c.Unknown("c17.escape-skip", "DoubleQuotesToBackTick/'-region", c.P.Pos(bo.Pos()), err.Error())
+			return
+		}
+		stops := 0
+		for _, p := range paths {
+			switch p.Exit {
+			case "return":
+				if len(p.Ret) == 2 && p.Ret[1].Nil {
+					why = append(why, "the function returns successfully from inside an escape")
+				}
+			case "stop":
+				stops++
+				in, has := p.PhiIn[pos]
+				base, adv := addConst(in.T)
+				if !has || base == nil || base.V != ssa.Value(pos) || adv != 2 {
+					why = append(why, fmt.Sprintf("after a backslash the position becomes %s (an advance of exactly 2 is required on every path: the escaped byte is consumed whatever it is)", termStr(in.T)))
+				}
+			default:
+				why = append(why, "a path after a backslash ends with "+p.Exit)
+			}
+		}
+		if stops == 0 {
+			why = append(why, "no path continues the region after a backslash")
+		}
+	}
+	if n == 0 {
+		why = append(why, "the single-quote region has no backslash test")
+	}
+	c.Check(len(why) == 0, "c17.escape-skip", "DoubleQuotesToBackTick/'-region", c.P.Pos(region.Instrs[0].Pos()), fmt.Sprintf("%d backslash tests: every continuing path advances by 2", n), strings.Join(uniq(why), "; "))
+}
+
+func init() { register("C17", ruleC17PrepareData); register("C07", ruleC17PrepareData) }
+
+// ruleC17PrepareData: nested statements run over exactly the document they are given.
+func ruleC17PrepareData(c *Ctx) {
+	c.Doc("c17.prepare-data", "Prepare (used for every nested statement: subqueries, EXISTS, CTE bodies, derived tables, union branches) stores its data parameter itself into the new query's data — the Wrapped option is applied once, by New, to the caller's document; Query.data is otherwise written only by New (the document or its `root` wrapper), the CTE builder (the registry copy) and CopyQuery")
+	f := c.P.Func(modPath, "Prepare")
+	if f == nil {
+		c.Unknown("c17.prepare-data", "Prepare", "-", "anchor lost")
+		return
+	}
+	dp := paramNameOfType(f, "Map")
+	allowed := map[string]string{"New": "the caller's document or its root wrapper", "Prepare": "the data parameter", "BuildCte": "the registry: a copy of the data plus the lazy CTEs", "CopyQuery": "copied for re-evaluation"}
+	n := 0
+	for _, g := range c.P.ModFuncs {
+		if len(g.TypeArgs()) > 0 {
+			continue
+		}
+		root := g
+		for root.Parent() != nil {
+			root = root.Parent()
+		}
+		allInstrs(g, func(_ *ssa.BasicBlock, in ssa.Instruction) {
+			st, ok := in.(*ssa.Store)
+			if !ok {
+				return
+			}
+			fa, ok := st.Addr.(*ssa.FieldAddr)
+			if !ok {
+				return
+			}
+			pt, ok := fa.X.Type().Underlying().(*types.Pointer)
+			if !ok || shortType(pt.Elem()) != "Query" || fieldName(pt.Elem(), fa.Field) != "data" {
+				return
+			}
+			n++
+			reason, isAllowed := allowed[root.Name()]
+			key := "Query.data <- " + c.P.funcKey(g)
+			if !isAllowed {
+				c.Fail("c17.prepare-data", key, c.P.Pos(st.Pos()), "Query.data is assigned in "+c.P.funcKey(g)+", which is not New, Prepare, the CTE builder or CopyQuery")
+				return
+			}
+			if root == f {
+				p, isP := st.Val.(*ssa.Parameter)
+				c.Check(isP && p.Name() == dp, "c17.prepare-data", key, c.P.Pos(st.Pos()), "the data parameter itself", "Prepare stores "+NewTB().Of(st.Val).String()+" instead of its data parameter: a nested statement (which receives the current row or the already wrapped document) runs over something else")
+				return
+			}
+			c.Pass("c17.prepare-data", key, c.P.Pos(st.Pos()), reason)
+		})
+	}
+	if n < 3 {
+		c.Unknown("c17.prepare-data", "Query.data", "-", fmt.Sprintf("only %d stores to Query.data found", n))
+	}
 }
